@@ -254,6 +254,11 @@ def run_c09(rep, tier):
         if kind in ('pam', 'xpm'):
             kw.pop('finder_dark', None)
         sess.append({'version': ('M2', 1)[i % 2], 'kind': kind, 'kw': dict(kw, scale=1 + i % 2), 'seed': common.seed(), 'family': 'raster'})
+    # many images of ONE colour shape in a row (one colour transparent, the other translucent): nothing may be used up
+    shapes = [{'dark': '#00008b80', 'light': None}, {'dark': None, 'light': (255, 255, 0, 0.5)}, {'dark': (0, 0, 139, 7), 'light': None},
+              {'dark': '#0008', 'light': None}, {'dark': (1, 2, 3, 0.25), 'light': None}]
+    for i in range(180 if tier == 'quick' else 900):
+        sess.append({'version': ('M1', 'M2')[i % 2], 'kind': 'png', 'kw': dict(shapes[i % len(shapes)]), 'seed': common.seed(), 'family': 'raster'})
     for a in list(range(0, 256, 1 if tier == 'thorough' else 5)) + [1, 2, 16, 254]:
         sess.append({'version': 'M1', 'kind': ('png', 'pam')[a % 2], 'kw': {'dark': (0, 0, 139, a)}, 'seed': common.seed(), 'family': 'raster'})
     for a in (0, 1, 2, 16, 128, 254, 255, 0.0, 0.5, 1.0):
